@@ -21,6 +21,15 @@ Theorem C20_classification_is_silent : classify_write_sites = [].
 Proof. exact C20Tie.classification_is_silent. Qed.
 Print Assumptions C20_classification_is_silent.
 
+(* Outside the connection handler: server.py's overrides of the socketserver
+   hooks that run in the accept loop (verify_request, get_request,
+   process_request, ...) send nothing to a client — a write there would be
+   outside every except clause modelled here — and the reading of the request
+   line at the top of handle() is guarded. *)
+Theorem C20_accept_loop_is_silent : accept_loop_write_sites = [] /\ request_read_guarded = true.
+Proof. exact C20Tie.outside_handler_silent. Qed.
+Print Assumptions C20_accept_loop_is_silent.
+
 (* nothing propagates past server.GopherRequestHandler.handle *)
 Theorem C20_contained :
   forall p fails c pre acts, silent pre = true ->
